@@ -5,6 +5,7 @@ package main
 import (
 	"encoding/json"
 	"fmt"
+	"go/token"
 	"go/types"
 	"os"
 	"path/filepath"
@@ -124,6 +125,13 @@ func sharedState(p *Loaded, entries []string) []*Obligation {
 		pp := f.Pkg.Pkg.Path()
 		return strings.HasPrefix(pp, "free5gclib/") || pp == "tglib" || strings.HasPrefix(pp, "tglib/") || pp == "stgutg"
 	}
+	inRepoPkg := func(pk *ssa.Package) bool {
+		if pk == nil {
+			return false
+		}
+		pp := pk.Pkg.Path()
+		return strings.HasPrefix(pp, "free5gclib/") || pp == "tglib" || strings.HasPrefix(pp, "tglib/") || pp == "stgutg"
+	}
 	reach := map[*ssa.Function]string{}
 	var work []*ssa.Function
 	found := map[string]bool{}
@@ -217,6 +225,175 @@ func sharedState(p *Loaded, entries []string) []*Obligation {
 			}
 		}
 	}
+	// Writes THROUGH a reference read from a package-level variable (a slice, map or pointer kept in
+	// a table, a cache of buffers): the variable itself is never assigned after initialisation, but
+	// what it refers to is shared.  Taint: the loaded value and everything derived from it by
+	// indexing, slicing, field selection, map lookup, append, phi, conversion; across calls of
+	// repository functions through their parameters (context-insensitive fixpoint).  A store through
+	// a tainted address, a map update, an append to / copy into a tainted slice, or handing a tainted
+	// reference to one of the standard-library writers listed below is reported.
+	through := map[string]*hit{}
+	isRefType := func(t types.Type) bool {
+		switch u := t.Underlying().(type) {
+		case *types.Slice, *types.Map:
+			return true
+		case *types.Pointer:
+			s := u.Elem().String()
+			return !strings.Contains(s, "logrus.") // loggers: assumed safe for concurrent use
+		}
+		return false
+	}
+	taintOf := map[ssa.Value]*ssa.Global{}
+	var tainted func(v ssa.Value, depth int) *ssa.Global
+	tainted = func(v ssa.Value, depth int) *ssa.Global {
+		if g, ok := taintOf[v]; ok {
+			return g
+		}
+		if depth > 40 {
+			return nil
+		}
+		var g *ssa.Global
+		switch t := v.(type) {
+		case *ssa.UnOp:
+			if t.Op == token.MUL {
+				if gg := base(t.X); gg != nil && inRepoPkg(gg.Pkg) && isRefType(t.Type()) {
+					g = gg
+				} else if gg == nil {
+					// a load through a tainted address yields a shared reference too, if it is one
+					if isRefType(t.Type()) {
+						g = tainted(t.X, depth+1)
+					}
+				}
+			}
+		case *ssa.IndexAddr:
+			g = tainted(t.X, depth+1)
+		case *ssa.FieldAddr:
+			g = tainted(t.X, depth+1)
+		case *ssa.Slice:
+			g = tainted(t.X, depth+1)
+		case *ssa.Lookup:
+			if isRefType(t.Type()) || t.CommaOk {
+				g = tainted(t.X, depth+1)
+			}
+		case *ssa.Extract:
+			g = tainted(t.Tuple, depth+1)
+		case *ssa.ChangeType:
+			g = tainted(t.X, depth+1)
+		case *ssa.Convert:
+			if isRefType(t.Type()) {
+				g = tainted(t.X, depth+1)
+			}
+		case *ssa.Phi:
+			taintOf[v] = nil
+			for _, e := range t.Edges {
+				if gg := tainted(e, depth+1); gg != nil {
+					g = gg
+				}
+			}
+		case *ssa.Call:
+			if b, ok := t.Call.Value.(*ssa.Builtin); ok && b.Name() == "append" && len(t.Call.Args) > 0 {
+				g = tainted(t.Call.Args[0], depth+1)
+			}
+		}
+		taintOf[v] = g
+		return g
+	}
+	stdWriters := map[string]int{ // callee -> index of the argument written through
+		"(encoding/binary.bigEndian).PutUint16": 1, "(encoding/binary.bigEndian).PutUint32": 1, "(encoding/binary.bigEndian).PutUint64": 1,
+		"(encoding/binary.littleEndian).PutUint16": 1, "(encoding/binary.littleEndian).PutUint32": 1, "(encoding/binary.littleEndian).PutUint64": 1,
+		"crypto/rand.Read": 0, "io.ReadFull": 1, "encoding/hex.Decode": 0, "encoding/hex.Encode": 0,
+	}
+	for round := 0; round < 20; round++ {
+		changed := false
+		for f := range reach {
+			if f.Name() == "init" || strings.HasPrefix(f.Name(), "init#") {
+				continue
+			}
+			for _, b := range f.Blocks {
+				for _, ins := range b.Instrs {
+					switch i := ins.(type) {
+					case *ssa.Store:
+						if base(i.Addr) == nil {
+							if g := tainted(i.Addr, 0); g != nil {
+								note(through, g, f)
+							}
+						}
+					case *ssa.MapUpdate:
+						if g := tainted(i.Map, 0); g != nil {
+							note(through, g, f)
+						}
+					case ssa.CallInstruction:
+						cc := i.Common()
+						if bi, ok := cc.Value.(*ssa.Builtin); ok {
+							switch bi.Name() {
+							case "append", "copy":
+								if len(cc.Args) > 0 {
+									if g := tainted(cc.Args[0], 0); g != nil {
+										note(through, g, f)
+									}
+								}
+							case "delete":
+								if g := tainted(cc.Args[0], 0); g != nil {
+									note(through, g, f)
+								}
+							}
+							continue
+						}
+						if cc.IsInvoke() {
+							// dst of cipher.Block / cipher.Stream / hash.Hash methods
+							switch cc.Method.Name() {
+							case "Encrypt", "Decrypt", "XORKeyStream", "Read":
+								if len(cc.Args) > 0 {
+									if g := tainted(cc.Args[0], 0); g != nil {
+										note(through, g, f)
+									}
+								}
+							}
+							continue
+						}
+						callee := cc.StaticCallee()
+						if callee == nil {
+							continue
+						}
+						if idx, ok := stdWriters[fnName(callee)]; ok {
+							args := cc.Args
+							if callee.Signature.Recv() != nil {
+								args = args[1:]
+							}
+							if idx < len(args) {
+								if g := tainted(args[idx], 0); g != nil {
+									note(through, g, f)
+								}
+							}
+							continue
+						}
+						if _, ok := reach[callee]; ok && callee.Blocks != nil {
+							for k, a := range cc.Args {
+								if k >= len(callee.Params) {
+									break
+								}
+								if g := tainted(a, 0); g != nil && isRefType(callee.Params[k].Type()) {
+									if taintOf[callee.Params[k]] == nil {
+										taintOf[callee.Params[k]] = g
+										changed = true
+									}
+								}
+							}
+						}
+					}
+				}
+			}
+		}
+		if !changed {
+			break
+		}
+		// parameter taints are new facts: forget the derived (negative) results and go round again
+		for v, g := range taintOf {
+			if _, isParam := v.(*ssa.Parameter); !isParam && g == nil {
+				delete(taintOf, v)
+			}
+		}
+	}
 	keys := func(m map[string]*hit) []string {
 		var ks []string
 		for k := range m {
@@ -224,6 +401,17 @@ func sharedState(p *Loaded, entries []string) []*Obligation {
 		}
 		sort.Strings(ks)
 		return ks
+	}
+	for _, k := range keys(through) {
+		if writes[k] != nil {
+			continue
+		}
+		var fs []string
+		for f := range through[k].fns {
+			fs = append(fs, f)
+		}
+		sort.Strings(fs)
+		out = append(out, kObl(fn, "no-write-through."+k, false, "what it refers to is written by "+strings.Join(fs, ", ")))
 	}
 	for _, k := range keys(writes) {
 		var fs []string
